@@ -165,6 +165,18 @@ def run_verus(path, seed=0, rlimit=30, threads=4, multiple_errors=5, timeout=900
             fn2 = enclosing_fn(lines, prim[0]["line_start"])
             if fn2 != "?":
                 fn = fn2
+        # a contract clause may carry a name in a trailing comment `// [name]`; it becomes part of the obligation id
+        cname = ""
+        for sp in own:
+            lab = (sp.get("label") or "")
+            if "failed this postcondition" in lab or "failed precondition" in lab:
+                le = sp.get("line_end", 0)
+                if 0 < le <= len(lines):
+                    mm = re.search(r"//\s*\[([A-Za-z0-9_-]+)\]", lines[le - 1])
+                    if mm:
+                        cname = mm.group(1)
+        if cname:
+            kind = f"{kind}[{cname}]"
         res.failures.append({"kind": kind, "fn": fn, "line": site_line, "message": msg, "clause": clause[:300],
                              "src": lines[site_line - 1].strip() if 0 < site_line <= len(lines) else "",
                              "rendered": d.get("rendered", "")})
